@@ -100,8 +100,16 @@ def gen_cases(rng, tier):
                     ks = rng.sample(names + (['missing'] if rng.chance(0.05) else []), rng.randint(1, 2))
                     out.append([[x, enc(rng.pick(POOL))] for x in ks])
                 return out
-            cases.append({'kind': 'filter_old', 'names': names, 'rows': rows_enc(rows),
-                          'equals': conds(), 'not_equals': conds()})
+            c = {'kind': 'filter_old', 'names': names, 'rows': rows_enc(rows), 'equals': conds(), 'not_equals': conds()}
+            if rows and rng.chance(0.35):
+                # several conditions on the same field with values that occur in it (the conditions are alternatives)
+                f = rng.pick(names)
+                vals = [r[f] for r in rows]
+                which = rng.pick(['not_equals', 'not_equals', 'equals'])
+                c[which] = [[[f, enc(rng.pick(vals))]] for _ in range(rng.randint(2, 3))]
+                if rng.chance(0.5):
+                    c['equals' if which == 'not_equals' else 'not_equals'] = []
+            cases.append(c)
         elif k == 1:
             cases.append({'kind': 'filter_callable', 'names': names, 'rows': rows_enc(rows),
                           'cond': gen_pexpr(rng, names)})
@@ -115,14 +123,16 @@ def gen_cases(rng, tier):
 
 def gen_unpivot(rng):
     # field names with a common stem so regexes with groups select several
-    stems = rng.sample(['y2019', 'y2020', 'y2021', 'q1', 'q2', 'total', 'id', 'name', 'a.b', 'y20'], rng.randint(2, 6))
+    stems = rng.sample(['y2019', 'y2020', 'y2021', 'q1', 'q2', 'total', 'id', 'name', 'a.b', 'y20', 'q10', 'q1_adj', 'subtotal'], rng.randint(2, 6))
     nrows = rng.randint(0, 6)
     rows = [dict((n, rng.pick([None, 1, 2, 'u', 'w', True])) for n in stems) for _ in range(nrows)]
     regex = rng.chance(0.7)
     specs = []
     for _ in range(rng.randint(1, 3)):
         if regex:
-            pat = rng.pick([r'y(\d+)', r'y20(\d\d)', r'q([12])', r'(q|y)(.*)', r'total', r'y.*', r'[a-z]+', r'a.b', r'y20'])
+            pat = rng.pick([r'y(\d+)', r'y20(\d\d)', r'q([12])', r'(q|y)(.*)', r'total', r'y.*', r'[a-z]+', r'a.b', r'y20',
+                            # alternations at the top level of the pattern (the whole name must match one alternative)
+                            r'q1|q2', r'y20|total', r'id|q1', r'total|y2019'])
             keys = {}
             if rng.chance(0.8):
                 keys['year'] = rng.pick([r'\1', r'Y-\1', 'const', 7, r'\g<1>!'])
